@@ -156,5 +156,143 @@ def truthy (a : Val) : Bool :=
   | int z => z != 0 | bool_ b => b | flt q => q != 0 | mpf q => q != 0 | str s => s != "" | none_ => false
   | tup l => !l.isEmpty | err => false
 
+/-! ## Loops, sequences and bit operations (used by translated code with `while`/`for`) -/
+
+/-- outcome of a translated loop: the enclosing function executed `return v` inside the loop; the loop
+ended (condition false, sequence exhausted, `break`) with the loop-carried variables `s`; or the fuel
+of a `while` loop ran out (distinct from every Python value and from `err`). -/
+inductive Loop (σ : Type) where
+  | ret (v : Val)
+  | done (s : σ)
+  | fuelOut
+
+/-- result of a translated function that contains a `while` loop -/
+inductive Out where
+  | val (v : Val)
+  | fuelOut
+  deriving Inhabited
+
+/-- bits of `n` that are not in `m` -/
+def natAndNot (n m : Nat) : Nat := n ^^^ (n &&& m)
+/-- two's-complement `&`, `|`, `^` on unbounded integers (`Int.negSucc n` is `~n`) -/
+def iand (a b : Int) : Int :=
+  match a, b with
+  | .ofNat m, .ofNat n => .ofNat (m &&& n)
+  | .ofNat m, .negSucc n => .ofNat (natAndNot m n)
+  | .negSucc m, .ofNat n => .ofNat (natAndNot n m)
+  | .negSucc m, .negSucc n => .negSucc (m ||| n)
+def ior (a b : Int) : Int :=
+  match a, b with
+  | .ofNat m, .ofNat n => .ofNat (m ||| n)
+  | .ofNat m, .negSucc n => .negSucc (natAndNot n m)
+  | .negSucc m, .ofNat n => .negSucc (natAndNot m n)
+  | .negSucc m, .negSucc n => .negSucc (m &&& n)
+def ixor (a b : Int) : Int :=
+  match a, b with
+  | .ofNat m, .ofNat n => .ofNat (m ^^^ n)
+  | .ofNat m, .negSucc n => .negSucc (m ^^^ n)
+  | .negSucc m, .ofNat n => .negSucc (m ^^^ n)
+  | .negSucc m, .negSucc n => .ofNat (m ^^^ n)
+
+/-- Python `|`, `&`, `^` on ints/bools; anything else is a TypeError -/
+def bitor (a b : Val) : Val :=
+  match a, b with
+  | bool_ x, bool_ y => bool_ (x || y)
+  | a, b => match kind a, kind b with
+    | .i, .i => int (ior (toInt a) (toInt b))
+    | _, _ => err
+def bitand (a b : Val) : Val :=
+  match a, b with
+  | bool_ x, bool_ y => bool_ (x && y)
+  | a, b => match kind a, kind b with
+    | .i, .i => int (iand (toInt a) (toInt b))
+    | _, _ => err
+def bitxor (a b : Val) : Val :=
+  match a, b with
+  | bool_ x, bool_ y => bool_ (x != y)
+  | a, b => match kind a, kind b with
+    | .i, .i => int (ixor (toInt a) (toInt b))
+    | _, _ => err
+
+/-- `len(x)` of a list/tuple or string -/
+def len_ (a : Val) : Val :=
+  match a with | tup l => int l.length | str s => int s.length | _ => err
+
+/-- `a[i]` with a computed index: list/tuple only, int (or bool) index, negative indices count from the
+end, IndexError/TypeError are `err` -/
+def index (a i : Val) : Val :=
+  match a, kind i with
+  | tup l, .i =>
+    let k := toInt i
+    let k := if k < 0 then k + l.length else k
+    if 0 ≤ k ∧ k < l.length then l.getD k.toNat err else err
+  | _, _ => err
+
+/-- one bound of a slice over a sequence of length `n`, clamped as Python does; `dflt` for an omitted bound -/
+def sliceBound (n : Nat) (v : Val) (dflt : Nat) : Option Nat :=
+  match v with
+  | none_ => some dflt
+  | int k => some (if k < 0 then (k + n).toNat else min k.toNat n)
+  | bool_ b => some (min (if b then 1 else 0) n)
+  | _ => none
+
+/-- `a[lo:hi]` (no step) of a list/tuple -/
+def slice (a lo hi : Val) : Val :=
+  match a with
+  | tup l =>
+    match sliceBound l.length lo 0, sliceBound l.length hi l.length with
+    | some i, some j => tup ((l.take j).drop i)
+    | _, _ => err
+  | _ => err
+
+/-- `a[lo:hi] = v` on a list (value semantics: the updated list is returned); `del a[lo:hi]` is `v = []` -/
+def setSlice (a lo hi v : Val) : Val :=
+  match a, v with
+  | tup l, tup w =>
+    match sliceBound l.length lo 0, sliceBound l.length hi l.length with
+    | some i, some j => tup (l.take i ++ w ++ l.drop (max i j))
+    | _, _ => err
+  | _, _ => err
+
+/-- position of a computed index in a sequence of length `n` (negative indices count from the end) -/
+def indexPos (n : Nat) (i : Val) : Option Nat :=
+  match kind i with
+  | .i =>
+    let k := toInt i
+    let k := if k < 0 then k + n else k
+    if 0 ≤ k ∧ k < n then some k.toNat else none
+  | _ => none
+
+/-- `a[i] = v` and `del a[i]` on a list (value semantics) -/
+def setItem (a i v : Val) : Val :=
+  match a with
+  | tup l => match indexPos l.length i with
+    | some k => tup (l.take k ++ v :: l.drop (k + 1))
+    | none => err
+  | _ => err
+def delItem (a i : Val) : Val :=
+  match a with
+  | tup l => match indexPos l.length i with
+    | some k => tup (l.take k ++ l.drop (k + 1))
+    | none => err
+  | _ => err
+
+/-- the items a `for` statement iterates over (`none`: not iterable here — only lists/tuples are) -/
+def iter (a : Val) : Option (List Val) :=
+  match a with | tup l => some l | _ => none
+
+/-- `range(stop)`, `range(start, stop)`, `range(start, stop, step)` as a list of ints -/
+def range_ (args : List Val) : Val :=
+  let mk (a b s : Int) : Val :=
+    if s = 0 then err
+    else
+      let n : Nat := if 0 < s then ((b - a + s - 1) / s).toNat else ((a - b + (-s) - 1) / (-s)).toNat
+      tup ((List.range n).map (fun (k : Nat) => int (a + (k : Int) * s)))
+  match args with
+  | [int b] => mk 0 b 1
+  | [int a, int b] => mk a b 1
+  | [int a, int b, int s] => mk a b s
+  | _ => err
+
 end Py
 end Plotink
